@@ -70,7 +70,7 @@ class Gen(object):
                                           source_data=r.choice([None, 'file:///x.max']))
                         for _ in range(r.randint(0, 2))]
         # <unit> carries name and meter together: the model has both or neither
-        unit = r.choice([(None, None), ('meter', 1.0), ('inch', 0.0254), ('centimeter', 0.01)])
+        unit = r.choice([(None, None), ('meter', 1.0), ('inch', 0.0254), ('centimeter', 0.01), ('survey_foot', 0.3048006096), ('au', 149597870700.0)])
         doc.assetInfo = asset.Asset(
             created=datetime.datetime(2001 + r.randint(0, 20), r.randint(1, 12), r.randint(1, 28), r.randint(0, 23), r.randint(0, 59), r.randint(0, 59)),
             modified=datetime.datetime(2022, r.randint(1, 12), r.randint(1, 28), r.randint(0, 23), r.randint(0, 59), r.randint(0, 59)),
